@@ -75,6 +75,8 @@ Definition fam_ok (step : fam_state -> fam_state) (n : Z) : bool :=
 (** ---------- list-of-lists machine carrying (priority, value) pairs: the specification side of C16 ---------- *)
 From RlibV Require Import C03.Corr.
 Definition pv := (Z * Z)%type.
+(** kind 0 treats every modification as an addition *)
+Definition md0_act (m : amod) (e : Z) : Z := e + md0 m.
 Definition pact (act : amod -> Z -> Z) (m : amod) (e : pv) : pv := (fst e, act m (snd e)).
 Fixpoint ptake (c : Z) (l : list pv) : list pv :=
   match l with [] => [] | x :: xs => if snd x <? c then x :: ptake c xs else [] end.
